@@ -137,7 +137,7 @@ func judgeWire(x *explore.Ctx, e *WEnv, id string) {
 			if o < 0 && e.Sent != nil {
 				// prepared messages are rendered inside WritePreparedMessage: same epoch rule
 			}
-			x.Check(o >= 0, key("maskkey-not-fresh"), "frame %d: masking key % x is not an unused 4-byte window handed out by the random source during the API call that wrote the frame (call %d)", fi, f.Key, epoch)
+			x.Check(o >= 0, key("maskkey-not-fresh"), "frame %d: masking key % x is not an unused 4-byte window handed out by the random source up to the API call that wrote the frame (call %d)", fi, f.Key, epoch)
 			used[o], used[o+1], used[o+2], used[o+3] = true, true, true, true
 		}
 		if cfg.Server {
